@@ -52,7 +52,7 @@ func opCoerce(req *sb.Req) *sb.Resp {
 			it.NS = FmtNum(stick.CoerceNumber(gv))
 			it.B = stick.CoerceBool(gv)
 			it.Msg = FmtNum(stick.CoerceNumber(stick.CoerceString(gv)))
-			if sv, ok := gv.(stick.SafeValue); ok {
+			if sv, ok := gv.(stick.SafeValue); ok && !isNilPtr(gv) {
 				ts := sv.SafeFor()
 				it.L = ts
 				it.S2 = Repr(sv.Value())
